@@ -125,7 +125,7 @@ CHECKS.update({
    technique='harness-enforced contracts (CBMC) on Message::createKey (definition and telegram overloads), Message::checkId and MessageMap::find(master,...) with the message map abstracted by its bucket invariant and a tracked definition',
    level='proof',
    text='Both key functions are proved equal to an independent key specification (3 bit id length, source class, destination, PB, SB, XOR fold of further id bytes) for ids of 0..7 bytes; lemma: a matching definition sits under exactly the key probed for its id length and source class, and equal keys agree on length, destination, PB, SB; find() is proved sound (every returned definition matches destination, PB/SB, all id bytes via checkId, source restriction and requested direction) and complete/longest (if an arbitrary tracked, available definition matches, a definition with an id at least as long is returned).',
-   note=TB + 'std::map/vector abstracted: a probe returns some definition whose own key equals the probed key and that passes the real checkId (bucket invariant of MessageMap::add, not verified), the tracked definition is found under its key; chained ids (ChainedMessage::checkId), the name-based find and add/duplicate detection are not under contract.',
+   note=TB + 'std::map/vector abstracted: a probe returns some definition whose own key equals the probed key and that passes the real checkId (the bucket itself is a stub), the tracked definition is found under its key; the id length bookkeeping at the end of MessageMap::add (fragment, rule R16) is proved to establish and preserve the covering invariant find() assumes; chained ids (ChainedMessage::checkId), the name-based find and add/duplicate detection are not under contract.',
    ref='DESIGN.md I.2 (C08)'),
 })
 
